@@ -14,6 +14,8 @@
     harness/c09_spine_a.py. *)
 From Asn1V Require Import Base.Prelude CGen.Helpers CGen.HelpersSpec CGen.HelpersProofs CGen.HelpersTie.
 From Asn1V Require Import CGen.GenLogic CGen.GenLogicProofs.
+From Asn1V Require Import CGen.Ir CGen.HelpersIrTie.
+From Asn1Gen Require Import UperHelpersIr.
 From Asn1Gen Require Import UperHelpers.
 
 (** helpers_in_bounds (encoder): for EVERY history of helper calls with arguments the
@@ -152,6 +154,300 @@ Theorem C09_enum_not_pow2_check_needed : forall n,
   0 < n -> is_pow2 n = false -> exists idx, 0 <= idx < 2 ^ nbits (n - 1) /\ n <= idx.
 Proof. exact enum_not_pow2_check_needed. Qed.
 Print Assumptions C09_enum_not_pow2_check_needed.
+
+(** ------------------------------------------------------------------
+    Semantic tie: [Asn1Gen.UperHelpersIr.helpers_ir] is the helper block of
+    /repo's uper_functions.py / utils.py translated on THIS run by
+    translator/cparse.py + ctoir.py into the IR of CGen/Ir.v.  Executing each
+    of its 32 functions in the IR semantics (distinct out-of-bounds / undefined
+    behaviour outcomes) gives, for ALL arguments, exactly the model function of
+    CGen/Helpers.v about which the theorems above are proved (by symbolic
+    execution; loops by induction; fuel = call depth + loop iterations).  So
+    the in-bounds, latch, X.691 and round-trip theorems hold for the parsed C
+    text itself, up to the translator and the IR semantics. *)
+
+Theorem C09_ir_encoder_alloc : forall b sz ps n, in_s64 sz = true -> in_s64 ps = true ->
+  run helpers_ir tie_fuel "encoder_alloc"%string [cursor_val b sz ps; VInt n] =
+  match encoder_alloc (mkCur b sz ps) n with
+  | COk (s', p) => ROk (Some p, [cursor_val (buf s') (size s') (pos s'); VInt n])
+  | COob => RFail FOob | CUb => RFail FUb end.
+Proof. exact ir_encoder_alloc. Qed.
+Print Assumptions C09_ir_encoder_alloc.
+
+Theorem C09_ir_decoder_free : forall b sz ps n, in_s64 sz = true -> in_s64 ps = true ->
+  run helpers_ir tie_fuel "decoder_free"%string [cursor_val b sz ps; VInt n] =
+  match decoder_free (mkCur b sz ps) n with
+  | COk (s', p) => ROk (Some p, [cursor_val (buf s') (size s') (pos s'); VInt n])
+  | COob => RFail FOob | CUb => RFail FUb end.
+Proof. exact ir_decoder_free. Qed.
+Print Assumptions C09_ir_decoder_free.
+
+Theorem C09_ir_encoder_abort : forall b sz ps e, in_s64 sz = true -> in_s64 ps = true ->
+  -9223372036854775807 <= e <= 9223372036854775807 ->
+  run helpers_ir tie_fuel "encoder_abort"%string [cursor_val b sz ps; VInt e] =
+  let s' := abort (mkCur b sz ps) e in
+  ROk (None, [cursor_val (buf s') (size s') (pos s'); VInt e]).
+Proof. exact ir_encoder_abort. Qed.
+Print Assumptions C09_ir_encoder_abort.
+
+Theorem C09_ir_decoder_abort : forall b sz ps e, in_s64 sz = true -> in_s64 ps = true ->
+  -9223372036854775807 <= e <= 9223372036854775807 ->
+  run helpers_ir tie_fuel "decoder_abort"%string [cursor_val b sz ps; VInt e] =
+  let s' := abort (mkCur b sz ps) e in
+  ROk (None, [cursor_val (buf s') (size s') (pos s'); VInt e]).
+Proof. exact ir_decoder_abort. Qed.
+Print Assumptions C09_ir_decoder_abort.
+
+Theorem C09_ir_encoder_get_result : forall b sz ps, in_s64 sz = true -> in_s64 ps = true ->
+  ps <= 9223372036854775800 ->
+  run helpers_ir tie_fuel "encoder_get_result"%string [cursor_val b sz ps] =
+  ROk (Some (get_result (mkCur b sz ps)), [cursor_val b sz ps]).
+Proof. exact ir_encoder_get_result. Qed.
+Print Assumptions C09_ir_encoder_get_result.
+
+Theorem C09_ir_decoder_get_result : forall b sz ps, in_s64 sz = true -> in_s64 ps = true ->
+  ps <= 9223372036854775800 ->
+  run helpers_ir tie_fuel "decoder_get_result"%string [cursor_val b sz ps] =
+  ROk (Some (get_result (mkCur b sz ps)), [cursor_val b sz ps]).
+Proof. exact ir_decoder_get_result. Qed.
+Print Assumptions C09_ir_decoder_get_result.
+
+Theorem C09_ir_encoder_init : forall b0 s0 p0 b n,
+  run helpers_ir tie_fuel "encoder_init"%string [cursor_val b0 s0 p0; bytes_val b; VInt n] =
+  match init b n with
+  | COk s => ROk (None, [cursor_val (buf s) (size s) (pos s); bytes_val b; VInt n])
+  | COob => RFail FOob | CUb => RFail FUb end.
+Proof. exact ir_encoder_init. Qed.
+Print Assumptions C09_ir_encoder_init.
+
+Theorem C09_ir_decoder_init : forall b0 s0 p0 b n,
+  run helpers_ir tie_fuel "decoder_init"%string [cursor_val b0 s0 p0; bytes_val b; VInt n] =
+  match init b n with
+  | COk s => ROk (None, [cursor_val (buf s) (size s) (pos s); bytes_val b; VInt n])
+  | COob => RFail FOob | CUb => RFail FUb end.
+Proof. exact ir_decoder_init. Qed.
+Print Assumptions C09_ir_decoder_init.
+
+Theorem C09_ir_encoder_append_bit : forall b sz ps v,
+  in_s64 sz = true -> in_s64 ps = true -> in_range I32 v = true ->
+  run helpers_ir tie_fuel "encoder_append_bit"%string [cursor_val b sz ps; VInt v] =
+  match append_bit (mkCur b sz ps) v with
+  | COk s' => ROk (None, [cursor_val (buf s') (size s') (pos s'); VInt v])
+  | COob => RFail FOob | CUb => RFail FUb end.
+Proof. exact ir_encoder_append_bit. Qed.
+Print Assumptions C09_ir_encoder_append_bit.
+
+Theorem C09_ir_decoder_read_bit : forall b sz ps,
+  in_s64 sz = true -> in_s64 ps = true ->
+  run helpers_ir tie_fuel "decoder_read_bit"%string [cursor_val b sz ps] =
+  match read_bit (mkCur b sz ps) with
+  | COk (s', x) => ROk (Some x, [cursor_val (buf s') (size s') (pos s')])
+  | COob => RFail FOob | CUb => RFail FUb end.
+Proof. exact ir_decoder_read_bit. Qed.
+Print Assumptions C09_ir_decoder_read_bit.
+
+Theorem C09_ir_encoder_append_nnbi : forall fuel b sz ps v n,
+  in_s64 sz = true -> in_s64 ps = true -> 0 <= n < 18446744073709551616 ->
+  (Z.to_nat n + 48 <= fuel)%nat ->
+  run helpers_ir fuel "encoder_append_non_negative_binary_integer"%string
+      [cursor_val b sz ps; VInt v; VInt n] =
+  match append_nnbi (mkCur b sz ps) v n with
+  | COk s' => ROk (None, [cursor_val (buf s') (size s') (pos s'); VInt v; VInt n])
+  | COob => RFail FOob | CUb => RFail FUb end.
+Proof. exact ir_encoder_append_nnbi. Qed.
+Print Assumptions C09_ir_encoder_append_nnbi.
+
+Theorem C09_ir_decoder_read_nnbi : forall fuel b sz ps n,
+  in_s64 sz = true -> in_s64 ps = true -> 0 <= n < 18446744073709551616 ->
+  (Z.to_nat n + 52 <= fuel)%nat ->
+  run helpers_ir fuel "decoder_read_non_negative_binary_integer"%string [cursor_val b sz ps; VInt n] =
+  match read_nnbi (mkCur b sz ps) n with
+  | COk (s', r) => ROk (Some r, [cursor_val (buf s') (size s') (pos s'); VInt n])
+  | COob => RFail FOob | CUb => RFail FUb end.
+Proof. exact ir_decoder_read_nnbi. Qed.
+Print Assumptions C09_ir_decoder_read_nnbi.
+
+Theorem C09_ir_encoder_append_bytes : forall fuel b sz ps src n,
+  in_s64 sz = true -> in_s64 ps = true -> bytes_ok src ->
+  0 <= n < 1152921504606846976 -> (Z.to_nat n + 50 <= fuel)%nat ->
+  run helpers_ir fuel "encoder_append_bytes"%string [cursor_val b sz ps; bytes_val src; VInt n] =
+  match append_bytes (mkCur b sz ps) src n with
+  | COk s' => ROk (None, [cursor_val (buf s') (size s') (pos s'); bytes_val src; VInt n])
+  | COob => RFail FOob | CUb => RFail FUb end.
+Proof. exact ir_encoder_append_bytes. Qed.
+Print Assumptions C09_ir_encoder_append_bytes.
+
+Theorem C09_ir_decoder_read_bytes : forall fuel b sz ps dst n,
+  in_s64 sz = true -> in_s64 ps = true -> bytes_ok b ->
+  0 <= n < 1152921504606846976 -> (Z.to_nat n + 50 <= fuel)%nat ->
+  run helpers_ir fuel "decoder_read_bytes"%string [cursor_val b sz ps; bytes_val dst; VInt n] =
+  match read_bytes (mkCur b sz ps) dst n with
+  | COk (s', d') => ROk (None, [cursor_val (buf s') (size s') (pos s'); bytes_val d'; VInt n])
+  | COob => RFail FOob | CUb => RFail FUb end.
+Proof. exact ir_decoder_read_bytes. Qed.
+Print Assumptions C09_ir_decoder_read_bytes.
+
+Theorem C09_ir_encoder_append_bool : forall fuel b sz ps z, (80 <= fuel)%nat ->
+  in_s64 sz = true -> in_s64 ps = true ->
+  run helpers_ir fuel "encoder_append_bool"%string [cursor_val b sz ps; VInt z] =
+  match append_bool (mkCur b sz ps) (negb (z =? 0)) with
+  | COk s' => ROk (None, [cursor_val (buf s') (size s') (pos s'); VInt z])
+  | COob => RFail FOob | CUb => RFail FUb end.
+Proof. exact ir_encoder_append_bool. Qed.
+Print Assumptions C09_ir_encoder_append_bool.
+
+Theorem C09_ir_decoder_read_bool : forall fuel b sz ps, (80 <= fuel)%nat ->
+  in_s64 sz = true -> in_s64 ps = true ->
+  run helpers_ir fuel "decoder_read_bool"%string [cursor_val b sz ps] =
+  match read_bool (mkCur b sz ps) with
+  | COk (s', v) => ROk (Some (if v then 1 else 0), [cursor_val (buf s') (size s') (pos s')])
+  | COob => RFail FOob | CUb => RFail FUb end.
+Proof. exact ir_decoder_read_bool. Qed.
+Print Assumptions C09_ir_decoder_read_bool.
+
+Theorem C09_ir_encoder_append_uint8 : forall fuel b sz ps v, (80 <= fuel)%nat ->
+  in_s64 sz = true -> in_s64 ps = true ->
+  run helpers_ir fuel "encoder_append_uint8"%string [cursor_val b sz ps; VInt v] =
+  match append_uint8 (mkCur b sz ps) v with
+  | COk s' => ROk (None, [cursor_val (buf s') (size s') (pos s'); VInt v])
+  | COob => RFail FOob | CUb => RFail FUb end.
+Proof. exact ir_encoder_append_uint8. Qed.
+Print Assumptions C09_ir_encoder_append_uint8.
+
+Theorem C09_ir_encoder_append_uint16 : forall fuel b sz ps v, (80 <= fuel)%nat ->
+  in_s64 sz = true -> in_s64 ps = true ->
+  run helpers_ir fuel "encoder_append_uint16"%string [cursor_val b sz ps; VInt v] =
+  match append_uint16 (mkCur b sz ps) v with
+  | COk s' => ROk (None, [cursor_val (buf s') (size s') (pos s'); VInt v])
+  | COob => RFail FOob | CUb => RFail FUb end.
+Proof. exact ir_encoder_append_uint16. Qed.
+Print Assumptions C09_ir_encoder_append_uint16.
+
+Theorem C09_ir_encoder_append_uint32 : forall fuel b sz ps v, (80 <= fuel)%nat ->
+  in_s64 sz = true -> in_s64 ps = true ->
+  run helpers_ir fuel "encoder_append_uint32"%string [cursor_val b sz ps; VInt v] =
+  match append_uint32 (mkCur b sz ps) v with
+  | COk s' => ROk (None, [cursor_val (buf s') (size s') (pos s'); VInt v])
+  | COob => RFail FOob | CUb => RFail FUb end.
+Proof. exact ir_encoder_append_uint32. Qed.
+Print Assumptions C09_ir_encoder_append_uint32.
+
+Theorem C09_ir_encoder_append_uint64 : forall fuel b sz ps v, (80 <= fuel)%nat ->
+  in_s64 sz = true -> in_s64 ps = true ->
+  run helpers_ir fuel "encoder_append_uint64"%string [cursor_val b sz ps; VInt v] =
+  match append_uint64 (mkCur b sz ps) v with
+  | COk s' => ROk (None, [cursor_val (buf s') (size s') (pos s'); VInt v])
+  | COob => RFail FOob | CUb => RFail FUb end.
+Proof. exact ir_encoder_append_uint64. Qed.
+Print Assumptions C09_ir_encoder_append_uint64.
+
+Theorem C09_ir_encoder_append_int8 : forall fuel b sz ps v, (80 <= fuel)%nat ->
+  in_s64 sz = true -> in_s64 ps = true ->
+  run helpers_ir fuel "encoder_append_int8"%string [cursor_val b sz ps; VInt v] =
+  match append_int8 (mkCur b sz ps) v with
+  | COk s' => ROk (None, [cursor_val (buf s') (size s') (pos s'); VInt v])
+  | COob => RFail FOob | CUb => RFail FUb end.
+Proof. exact ir_encoder_append_int8. Qed.
+Print Assumptions C09_ir_encoder_append_int8.
+
+Theorem C09_ir_encoder_append_int16 : forall fuel b sz ps v, (80 <= fuel)%nat ->
+  in_s64 sz = true -> in_s64 ps = true ->
+  run helpers_ir fuel "encoder_append_int16"%string [cursor_val b sz ps; VInt v] =
+  match append_int16 (mkCur b sz ps) v with
+  | COk s' => ROk (None, [cursor_val (buf s') (size s') (pos s'); VInt v])
+  | COob => RFail FOob | CUb => RFail FUb end.
+Proof. exact ir_encoder_append_int16. Qed.
+Print Assumptions C09_ir_encoder_append_int16.
+
+Theorem C09_ir_encoder_append_int32 : forall fuel b sz ps v, (80 <= fuel)%nat ->
+  in_s64 sz = true -> in_s64 ps = true ->
+  run helpers_ir fuel "encoder_append_int32"%string [cursor_val b sz ps; VInt v] =
+  match append_int32 (mkCur b sz ps) v with
+  | COk s' => ROk (None, [cursor_val (buf s') (size s') (pos s'); VInt v])
+  | COob => RFail FOob | CUb => RFail FUb end.
+Proof. exact ir_encoder_append_int32. Qed.
+Print Assumptions C09_ir_encoder_append_int32.
+
+Theorem C09_ir_encoder_append_int64 : forall fuel b sz ps v, (80 <= fuel)%nat ->
+  in_s64 sz = true -> in_s64 ps = true ->
+  run helpers_ir fuel "encoder_append_int64"%string [cursor_val b sz ps; VInt v] =
+  match append_int64 (mkCur b sz ps) v with
+  | COk s' => ROk (None, [cursor_val (buf s') (size s') (pos s'); VInt v])
+  | COob => RFail FOob | CUb => RFail FUb end.
+Proof. exact ir_encoder_append_int64. Qed.
+Print Assumptions C09_ir_encoder_append_int64.
+
+Theorem C09_ir_decoder_read_uint8 : forall fuel b sz ps, (80 <= fuel)%nat ->
+  in_s64 sz = true -> in_s64 ps = true -> bytes_ok b ->
+  run helpers_ir fuel "decoder_read_uint8"%string [cursor_val b sz ps] =
+  match read_uint8 (mkCur b sz ps) with
+  | COk (s', r) => ROk (Some r, [cursor_val (buf s') (size s') (pos s')])
+  | COob => RFail FOob | CUb => RFail FUb end.
+Proof. exact ir_decoder_read_uint8. Qed.
+Print Assumptions C09_ir_decoder_read_uint8.
+
+Theorem C09_ir_decoder_read_uint16 : forall fuel b sz ps, (80 <= fuel)%nat ->
+  in_s64 sz = true -> in_s64 ps = true -> bytes_ok b ->
+  run helpers_ir fuel "decoder_read_uint16"%string [cursor_val b sz ps] =
+  match read_uint16 (mkCur b sz ps) (zeros 8) with
+  | COk (s', r) => ROk (Some r, [cursor_val (buf s') (size s') (pos s')])
+  | COob => RFail FOob | CUb => RFail FUb end.
+Proof. exact ir_decoder_read_uint16. Qed.
+Print Assumptions C09_ir_decoder_read_uint16.
+
+Theorem C09_ir_decoder_read_uint32 : forall fuel b sz ps, (80 <= fuel)%nat ->
+  in_s64 sz = true -> in_s64 ps = true -> bytes_ok b ->
+  run helpers_ir fuel "decoder_read_uint32"%string [cursor_val b sz ps] =
+  match read_uint32 (mkCur b sz ps) (zeros 8) with
+  | COk (s', r) => ROk (Some r, [cursor_val (buf s') (size s') (pos s')])
+  | COob => RFail FOob | CUb => RFail FUb end.
+Proof. exact ir_decoder_read_uint32. Qed.
+Print Assumptions C09_ir_decoder_read_uint32.
+
+Theorem C09_ir_decoder_read_uint64 : forall fuel b sz ps, (80 <= fuel)%nat ->
+  in_s64 sz = true -> in_s64 ps = true -> bytes_ok b ->
+  run helpers_ir fuel "decoder_read_uint64"%string [cursor_val b sz ps] =
+  match read_uint64 (mkCur b sz ps) (zeros 8) with
+  | COk (s', r) => ROk (Some r, [cursor_val (buf s') (size s') (pos s')])
+  | COob => RFail FOob | CUb => RFail FUb end.
+Proof. exact ir_decoder_read_uint64. Qed.
+Print Assumptions C09_ir_decoder_read_uint64.
+
+Theorem C09_ir_decoder_read_int8 : forall fuel b sz ps, (80 <= fuel)%nat ->
+  in_s64 sz = true -> in_s64 ps = true -> bytes_ok b ->
+  run helpers_ir fuel "decoder_read_int8"%string [cursor_val b sz ps] =
+  match read_int8 (mkCur b sz ps) with
+  | COk (s', r) => ROk (Some r, [cursor_val (buf s') (size s') (pos s')])
+  | COob => RFail FOob | CUb => RFail FUb end.
+Proof. exact ir_decoder_read_int8. Qed.
+Print Assumptions C09_ir_decoder_read_int8.
+
+Theorem C09_ir_decoder_read_int16 : forall fuel b sz ps, (80 <= fuel)%nat ->
+  in_s64 sz = true -> in_s64 ps = true -> bytes_ok b ->
+  run helpers_ir fuel "decoder_read_int16"%string [cursor_val b sz ps] =
+  match read_int16 (mkCur b sz ps) (zeros 8) with
+  | COk (s', r) => ROk (Some r, [cursor_val (buf s') (size s') (pos s')])
+  | COob => RFail FOob | CUb => RFail FUb end.
+Proof. exact ir_decoder_read_int16. Qed.
+Print Assumptions C09_ir_decoder_read_int16.
+
+Theorem C09_ir_decoder_read_int32 : forall fuel b sz ps, (80 <= fuel)%nat ->
+  in_s64 sz = true -> in_s64 ps = true -> bytes_ok b ->
+  run helpers_ir fuel "decoder_read_int32"%string [cursor_val b sz ps] =
+  match read_int32 (mkCur b sz ps) (zeros 8) with
+  | COk (s', r) => ROk (Some r, [cursor_val (buf s') (size s') (pos s')])
+  | COob => RFail FOob | CUb => RFail FUb end.
+Proof. exact ir_decoder_read_int32. Qed.
+Print Assumptions C09_ir_decoder_read_int32.
+
+Theorem C09_ir_decoder_read_int64 : forall fuel b sz ps, (80 <= fuel)%nat ->
+  in_s64 sz = true -> in_s64 ps = true -> bytes_ok b ->
+  run helpers_ir fuel "decoder_read_int64"%string [cursor_val b sz ps] =
+  match read_int64 (mkCur b sz ps) (zeros 8) with
+  | COk (s', r) => ROk (Some r, [cursor_val (buf s') (size s') (pos s')])
+  | COob => RFail FOob | CUb => RFail FUb end.
+Proof. exact ir_decoder_read_int64. Qed.
+Print Assumptions C09_ir_decoder_read_int64.
 
 (** Non-vacuity: a live, clean cursor over four bytes, and a history that runs on it. *)
 Example C09_hypotheses_inhabited :
